@@ -219,6 +219,8 @@ type Iter struct {
 	pos  int
 	ents []*mapEnt
 	isMap bool
+	m     *Map              // the map being ranged (opts.nondetMapInsert only)
+	known map[*mapEnt]bool  // entries already scheduled or decided against (opts.nondetMapInsert only)
 }
 
 type Chan struct {
